@@ -84,7 +84,7 @@ def facts_dir(config, repo=None):
         lock.close()
 
 
-def _evict(keep_key, keep=4):
+def _evict(keep_key, keep=12):
     try:
         ents = [e for e in os.listdir(CACHE) if os.path.isdir(os.path.join(CACHE, e))]
         ents.sort(key=lambda e: os.path.getmtime(os.path.join(CACHE, e)), reverse=True)
